@@ -149,7 +149,7 @@ def run_ch_job(job):
     res.update(verdict="error" if rc not in (0, 1, 124) else "inconclusive",
                detail=("rc=%s " % rc) + (err.strip().splitlines()[-1] if err.strip() else "no output"))
   # path log
-  ent = rea = 0
+  ent = rea = 0; cur = False
   samples, seen = [], set()
   if os.path.exists(pathlog):
     for line in open(pathlog):
@@ -157,9 +157,11 @@ def run_ch_job(job):
         kind, t, vals = json.loads(line)
       except Exception:
         continue
-      if kind == "E": ent += 1
+      if kind == "E":
+        ent += 1; cur = False
       elif kind == "R":
-        rea += 1
+        if not cur:
+          rea += 1; cur = True     # paths that reached an assertion (counted once per path)
         key = json.dumps(vals)
         if key not in seen and len(samples) < 3:
           seen.add(key); samples.append({"harness": job["func"], "reached_with": vals})
@@ -235,7 +237,7 @@ def load_known(pid):
   p = os.path.join(VERIF, "known_findings.json")
   if not os.path.exists(p): return []
   data = json.load(open(p))
-  return [k for k in data.get("known", []) if k["property"] == pid]
+  return [k for k in data.get("known", []) if k["property"] == pid or pid in k.get("also", [])]
 
 
 def activate_known(pid, tier, say):
